@@ -96,7 +96,8 @@ class Report:
             else:
                 unlisted.append(v)
         wall = time.time() - self.t0
-        os.makedirs(os.path.join(VERIF, 'evidence', 'replay'), exist_ok=True)
+        replay_dir = os.path.join(VERIF, 'evidence', 'replay') if not os.environ.get('RDV_REPO') else os.path.join(VERIF, '.cache', 'variant-evidence', 'replay')
+        os.makedirs(replay_dir, exist_ok=True)
         # ---- stdout
         for r in sorted(self.rules):
             n = sum(1 for i in self.instances if i['rule'] == r)
@@ -106,7 +107,7 @@ class Report:
             print('KNOWN-FINDING: property=%s %s %s' % (self.prop, v['key'], known[v['key']].get('what', v['msg'])))
         replay_paths = []
         for i, v in enumerate(unlisted):
-            path = os.path.join(VERIF, 'evidence', 'replay', '%s-%d.json' % (self.prop, i))
+            path = os.path.join(replay_dir, '%s-%d.json' % (self.prop, i))
             with open(path, 'w') as f:
                 json.dump({'property': self.prop, 'rule': v['rule'], 'rule_text': self.rules.get(v['rule'], ''),
                            'key': v['key'], 'message': v['msg'], 'where': v['where'], 'extra': v['extra'],
@@ -161,7 +162,10 @@ class Report:
             'wall_s': round(wall, 3),
             'violations': len(unlisted),
         }
-        with open(os.path.join(VERIF, 'evidence', '%s.json' % self.prop), 'w') as f:
+        # runs against a variant tree (RDV_REPO set: self tests, mutation campaign) must not overwrite the evidence of /repo
+        ev_dir = os.path.join(VERIF, 'evidence') if not os.environ.get('RDV_REPO') else os.path.join(VERIF, '.cache', 'variant-evidence')
+        os.makedirs(ev_dir, exist_ok=True)
+        with open(os.path.join(ev_dir, '%s.json' % self.prop), 'w') as f:
             json.dump(ev, f, indent=1, default=str)
         if unlisted:
             return 1
